@@ -346,3 +346,8 @@ Definition parse_ex (fix_noimage : bool) (data : list Z) : Res (Parsed * Kind) :
 
 Definition parse (fix_noimage : bool) (data : list Z) : Res Parsed :=
   r <- parse_ex fix_noimage data ;; Ok (fst r).
+
+(** The pinned tree's parser (before commit 86109c7), kept only as the subject of
+    the [_refuted] theorems; the check runs [parse true] / [parse_ex true]. *)
+Definition pinned_parse_ex : list Z -> Res (Parsed * Kind) := parse_ex false.
+Definition pinned_parse : list Z -> Res Parsed := parse false.
